@@ -73,3 +73,130 @@ class ObjectResource_set_body:
 class ObjectResource_get_etag:
     def ensures(self, result):
         return result == '"' + self.etag + '"'
+
+
+@contract("xandikos.web.StoreBasedCollection.create_member",
+          params={"self": "obj:xandikos.web.StoreBasedCollection", "name": "opt[str]", "contents": "opaque:Chunks",
+                  "content_type": "str"},
+          returns="tuple[str,str]",
+          modifies=["self.store._fname_to_uid", "self.store._uid_to_fname", "self.store.ghost_M"],
+          modifies_on_raise=["self.store._fname_to_uid", "self.store._uid_to_fname"])
+class Collection_create_member:
+    def requires(self):
+        return import_pre(self.store)
+
+    def raises_PreconditionFailure(self, name, contents, content_type):
+        return put_refused(self.store, name, content_type, contents)
+
+    def exc_PreconditionFailure(self, name, contents, content_type, exc):
+        f = upload_file(self.store, name, content_type, contents)
+        return exc.precondition == ("{urn:ietf:params:xml:ns:caldav}valid-calendar-data" if not valid_file(f)
+                                    else "{urn:ietf:params:xml:ns:caldav}no-uid-conflict")
+
+    def raises_ResourceLocked(self, name, contents, content_type):
+        return not put_refused(self.store, name, content_type, contents) and self.store.ghost_locked
+
+    def ensures(self, name, contents, content_type, result):
+        e = new_etag(self.store, name, content_type, contents)
+        return (result[0] == effective_name(name, content_type)
+                and result[1] == '"' + e + '"'
+                and self.store.ghost_M == old(self.store.ghost_M).put(result[0], e))
+
+
+@contract("xandikos.web.StoreBasedCollection.delete_member",
+          params={"self": "obj:xandikos.web.StoreBasedCollection", "name": "str", "etag": "opt[str]"},
+          modifies=["self.store.ghost_M", "fs()"])
+class Collection_delete_member:
+    def requires(self, name):
+        # call site (DeleteMethod): the addressed resource exists as a member or a listed sub-collection
+        return (name != "" and (name in self.store.ghost_M or name in self.store.ghost_subdirs)
+                # ghost_subdirs are the directories below the store's path
+                and forall("str", lambda n: (n in self.store.ghost_subdirs) == (n in fs_subdirs(self.store.path))))
+
+    def raises_InvalidETag(self, name, etag):
+        return name in self.store.ghost_M and etag is not None and self.store.ghost_M[name] != etag.strip('"')
+
+    def raises_LockedError(self, name, etag):
+        return (name in self.store.ghost_M
+                and not (etag is not None and self.store.ghost_M[name] != etag.strip('"'))
+                and self.store.ghost_locked)
+
+    def ensures(self, name):
+        return (implies(name in old(self.store.ghost_M),
+                        self.store.ghost_M == old(self.store.ghost_M).without(name)
+                        and effect_names() == [])
+                and implies(name not in old(self.store.ghost_M),
+                            self.store.ghost_M == old(self.store.ghost_M)
+                            and effect_names() == ["Rmtree"]))
+
+
+@contract("xandikos.web.StoreBasedCollection.get_ctag", params={"self": "obj:xandikos.web.StoreBasedCollection"},
+          returns="str", modifies=["self.store.ghost_trees"])
+class Collection_get_ctag:
+    def ensures(self, result):
+        return result == tag_hash(self.store.ghost_M, self.store.ghost_cfg)
+
+
+@contract("xandikos.web.StoreBasedCollection.get_sync_token", params={"self": "obj:xandikos.web.StoreBasedCollection"},
+          returns="str", modifies=["self.store.ghost_trees"])
+class Collection_get_sync_token:
+    def ensures(self, result):
+        return (result == tag_hash(self.store.ghost_M, self.store.ghost_cfg)
+                and result in self.store.ghost_trees and self.store.ghost_trees[result] == self.store.ghost_M)
+
+
+@contract("xandikos.web.StoreBasedCollection.get_etag", params={"self": "obj:xandikos.web.StoreBasedCollection"},
+          returns="str", modifies=["self.store.ghost_trees"])
+class Collection_get_etag:
+    def ensures(self, result):
+        return result == '"' + tag_hash(self.store.ghost_M, self.store.ghost_cfg) + '"'
+
+
+def diff_record(r, A, has_old, B):
+    """r = (name, old_resource, new_resource): the resources carry the etags of name in A / B."""
+    a = A.get(r[0]) if has_old else None
+    b = B.get(r[0])
+    return (a != b
+            and (r[1] is None) == (a is None) and (r[2] is None) == (b is None)
+            and implies(a is not None, r[1].name == r[0] and r[1].etag == a and r[1].content_type == default_mime(r[0]))
+            and implies(b is not None, r[2].name == r[0] and r[2].etag == b and r[2].content_type == default_mime(r[0])))
+
+
+RES = "struct:xandikos.web.ObjectResource"
+
+
+@contract("xandikos.web.StoreBasedCollection.iter_differences_since",
+          params={"self": "obj:xandikos.web.StoreBasedCollection", "old_token": "opt[str]", "new_token": "str"},
+          returns="list[tuple[str,opt[struct:xandikos.web.ObjectResource],opt[struct:xandikos.web.ObjectResource]]]",
+          yields="tuple[str,opt[struct:xandikos.web.ObjectResource],opt[struct:xandikos.web.ObjectResource]]",
+          modifies=["self.store.ghost_trees"], modifies_on_raise=["self.store.ghost_trees"])
+class Collection_iter_differences_since:
+    """C07: one record per member whose etag differs between the two token states, each once,
+    nothing else; an unknown token is InvalidToken (never a successful wrong list)."""
+
+    def raises_InvalidToken(self, old_token, new_token):
+        T = self.store.ghost_trees
+        return ((old_token is not None and old_token not in T)
+                or (new_token not in T and not (old_token is None and new_token == empty_tag())))
+
+    def ensures(self, old_token, new_token, result):
+        T = self.store.ghost_trees
+        A = T[old_token]
+        B = T[new_token]
+        has_old = old_token is not None
+        return (forall("int", lambda j: implies(0 <= j and j < len(result), diff_record(result[j], A, has_old, B)))
+                and forall("int", "int", lambda i, j: implies(0 <= i and i < j and j < len(result),
+                                                             result[i][0] != result[j][0]))
+                and forall("str", lambda n: implies((A.get(n) if has_old else None) != B.get(n),
+                                                    exists("int", lambda j: 0 <= j and j < len(result)
+                                                           and result[j][0] == n))))
+
+    def inv_0(self, old_token, new_token, _i, _seq, _yielded):
+        T = self.store.ghost_trees
+        A = T[old_token]
+        B = T[new_token]
+        has_old = old_token is not None
+        return (change_list(_seq, A, has_old, B)
+                and len(_yielded) == _i
+                and forall("int", lambda j: implies(0 <= j and j < _i, _yielded[j][0] == _seq[j][0]
+                                                    and diff_record(_yielded[j], A, has_old, B))))
